@@ -219,7 +219,7 @@ func checkVerdict(c Case, ctx *vcommon.Ctx) *vcommon.Failure {
 			for _, z := range zs {
 				ctx.Class("zone/" + z)
 			}
-			if baseType && (s.Count() >= 2 || s.Depth() >= 2) && want.Decided() {
+			if baseType && (s.Count() >= 2 || s.Depth() >= 2 || (s.Count() == 1 && len(s.Cons[0].Refs) > 0 && len(c.Input.L)+len(c.Input.M) >= 2)) && want.Decided() {
 				ctx.Class("nontrivial/" + want.String())
 				ctx.NonTrivial(build + "\x00" + r.expr)
 				ctx.Note(strings.TrimPrefix(build, typedefs) + "(s:validate vt " + r.expr + ")  ; expected " + want.String() + ", observed " + obs.desc)
@@ -289,8 +289,9 @@ func genCase(jsonish bool) *rapid.Generator[Case] {
 
 func TestCheck(t *testing.T) {
 	vcommon.Main(t, "C14",
-		vcommon.S("verdict", 70000, 2250000, genCase(false), checkVerdict),
+		vcommon.S("verdict", 60000, 2000000, genCase(false), checkVerdict),
 		vcommon.S("jsonmaps", 30000, 1000000, genCase(true), checkVerdict),
+		vcommon.S("typelists", 15000, 400000, genTypeLists(), checkVerdict),
 		vcommon.S("malformed", 20000, 750000, genMalformed(), checkMalformed),
 	)
 }
